@@ -14,7 +14,7 @@ RULE = {
     "author": "me",
     "severity_score": 5,
     "fields": ["fieldA", "fieldE"],
-    "detection": {"sel": {"fieldA": ["foo*", "bar"], "fieldC": None, "fieldD": 5, "fieldG|fieldref": "fieldH", "fieldK": "kv"}, "condition": "sel"},
+    "detection": {"sel": {"fieldA": ["foo*", "bar"], "fieldC": None, "fieldD": 5, "fieldG|fieldref": "fieldH", "fieldK": "kv", "Hashes": "MD5=aa11"}, "condition": "sel"},
 }
 
 
@@ -104,6 +104,10 @@ def pipeline_dict(G, nest=False):
             # acts on ONE of the two items fieldK was replaced by
             {"id": "only1", "type": "replace_string", "regex": "^kw$", "replacement": "kx",
              "field_name_conditions": [{"type": "include_fields", "fields": ["fieldK1"]}]},
+            # an item that is REPLACED by another one (Hashes -> FileMD5) after something was applied to it
+            {"id": "hpre", "type": "replace_string", "regex": "^MD5", "replacement": "MD5",
+             "field_name_conditions": [{"type": "include_fields", "fields": ["Hashes"]}]},
+            {"id": "hsplit", "type": "hashes_fields", "valid_hash_algos": ["MD5"], "field_prefix": "File"},
             # a state variable whose value is falsy in Python: set all the same
             {"id": "st0", "type": "set_state", "key": "z", "val": ""},
             # a number
@@ -125,7 +129,7 @@ def pp_pipeline_dict(G, pp):
     mark = {"id": "pmark", "type": "embed", "prefix": "M(", "suffix": ")"}
     mark.update(group_keys("rule", G["rule"], "rule"))
     d["postprocessing"] = ([dict(PP_FIRST[pp], id="first")] if pp != "none" else []) + [mark]
-    d["transformations"] = d["transformations"][:6]
+    d["transformations"] = d["transformations"][:8]
     return d
 
 
@@ -174,7 +178,7 @@ def run(tier: str, seed: int) -> int:
     from .. import corrupt as _corrupt
 
     chk.binding_selftest("Judge_C13", obs, verdicts, _corrupt.c13)
-    by_id = {o["id"]: {"marker_item": dict(pipeline_dict(o["G"])["transformations"][7], inside_nest=bool(o.get("nest"))), "observed": o["ret"]["out"] if o["ret"]["ok"] else o["ret"]["exc"] + ": " + uncps(o["ret"]["msg"])} for o in obs}
+    by_id = {o["id"]: {"marker_item": dict(pipeline_dict(o["G"])["transformations"][9], inside_nest=bool(o.get("nest"))), "observed": o["ret"]["out"] if o["ret"]["ok"] else o["ret"]["exc"] + ": " + uncps(o["ret"]["msg"])} for o in obs}
     chk.absorb(verdicts, by_id, {c["id"]: c for c in cases})
     nontrivial = sum(1 for c in cases if sum(len(c["G"][k]["conds"]) for k in ("rule", "item", "field")) >= 1)
     samples = [by_id[o["id"]] for o in obs[:: max(1, len(obs) // 4)]][:4]
@@ -185,7 +189,7 @@ def run(tier: str, seed: int) -> int:
         "type (12 rule, 11 detection-item, 8 field-name conditions): every group alone with 0, 1 or 2 conditions in list form "
         "(default/and/or linking x negation) or map form with every expression over 1-2 identifiers, incl. the EMPTY group "
         "under every linking/negation setting, plus a seeded product of 12 x 12 x 10 groups; a marker transformation behind "
-        "a state-setting and a field-renaming item shows where it acted (6 detection items - two of them the replacements of a one-to-many renaming -, a field reference in a value, 2 field-list entries, the rule); "
+        "a state-setting and a field-renaming item shows where it acted (7 detection items - two of them the replacements of a one-to-many renaming, one the replacement of a Hashes item -, a field reference in a value, 2 field-list entries, the rule); "
         "plus a marker post-processing item behind a first post-processing item of each kind (embed, simple_template, template, replace, none) "
         "gated on that item's application, plus the single-group gates once more with the marker items inside a nested pipeline; non-trivial = at least one condition",
         samples=samples,
